@@ -120,11 +120,12 @@ type Spec struct {
 	Routes      []RouteSpec `json:"routes"`
 	Flows       []FlowSpec  `json:"flows"` // control skeletons, see flow.go
 	// additive extensions, see tables.go
-	Enums    []EnumSpec    `json:"enums"`
-	SelSets  []SelSetSpec  `json:"selsets"`
-	CallArgs []CallArgSpec `json:"callargs"`
-	Guards   []SkelSpec    `json:"guards"` // functions whose `if` conditions are emitted as source text (Gen.Guard.<name>)
-	Conds    []CondSpec    `json:"conds"`
+	Enums        []EnumSpec    `json:"enums"`
+	SelSets      []SelSetSpec  `json:"selsets"`
+	CallArgs     []CallArgSpec `json:"callargs"`
+	Guards       []SkelSpec    `json:"guards"` // functions whose `if` conditions are emitted as source text (Gen.Guard.<name>)
+	Conds        []CondSpec    `json:"conds"`
+	ModelImports []string      `json:"model_imports"` // hand-written Model modules (receiver structures of translated predicates)
 }
 
 var fset = token.NewFileSet()
@@ -1130,6 +1131,9 @@ func genModule(repo string, spec *Spec, outDir string) {
 	}
 	for _, im := range spec.LeanImports {
 		cs.WriteString("import " + im + "\n")
+	}
+	for _, im := range spec.ModelImports {
+		cs.WriteString("import TunnoxModel.Model." + im + "\n")
 	}
 	cs.WriteString("open Tunnox.PredPrelude\nnamespace Gen\n\n")
 	for i := range spec.Lits {
